@@ -103,7 +103,10 @@ class Ctx:
         cmd = self.tlc_cmd(module, cfg, workers, extra, os.path.join(d, "md"))
         t = time.time()
         e = dict(os.environ)
+        e.setdefault("JAVA_TOOL_OPTIONS", "-Xss256m")
         if env:
+            if "JAVA_TOOL_OPTIONS" in env:
+                env = dict(env, JAVA_TOOL_OPTIONS=env["JAVA_TOOL_OPTIONS"] + " -Xss256m")
             e.update(env)
         try:
             p = subprocess.run(["timeout", str(timeout)] + cmd, cwd=d, stdout=subprocess.PIPE,
@@ -179,7 +182,9 @@ class Ctx:
         cmd = ["timeout", str(timeout)] + self.tlc_cmd(module, cfg, workers, extra, os.path.join(d, "md"))
         drv = [self.drv()] + list(drv_args)
         t = time.time()
-        p1 = subprocess.Popen(cmd, cwd=d, stdout=subprocess.PIPE, stderr=subprocess.STDOUT)
+        e1 = dict(os.environ)
+        e1.setdefault("JAVA_TOOL_OPTIONS", "-Xss256m")
+        p1 = subprocess.Popen(cmd, cwd=d, stdout=subprocess.PIPE, stderr=subprocess.STDOUT, env=e1)
         p2 = subprocess.Popen(drv, stdin=p1.stdout, stdout=subprocess.PIPE, stderr=subprocess.STDOUT, text=True, env=self.go_env())
         p1.stdout.close()
         out, _ = p2.communicate()
@@ -207,10 +212,26 @@ class Ctx:
         if r.ok:
             return True, "", r
         m = re.search(r"REJECTED at event.*?(?=\n\S)", r.out, re.S)
-        if m or "Invariant" in r.out and "is violated" in r.out:
+        if m or ("Invariant" in r.out and "is violated" in r.out) or re.search(r"Postcondition \S+ .*is false", r.out):
             msg = (m.group(0) if m else "") + " " + " ".join(r.violated())
             return False, re.sub(r"\s+", " ", msg)[:1500], r
         raise Inconclusive("trace validation did not run cleanly on %s (rc=%s):\n%s" % (cfg, r.rc, "\n".join(r.out.splitlines()[-40:])))
+
+    def validate_sharded(self, module, cfg, trace_path, shards=8, what=None, timeout=3600):
+        """records that are independent of each other (one call / one message per line) are validated by several TLC
+        processes side by side; returns the list of (accepted, message, TlcResult) per shard"""
+        from concurrent.futures import ThreadPoolExecutor
+        lines = open(trace_path).read().splitlines()
+        shards = max(1, min(shards, len(lines) // 50 or 1))
+        files = []
+        d = self.subdir("shards")
+        for k in range(shards):
+            p = os.path.join(d, "shard%d.ndjson" % k)
+            with open(p, "w") as f:
+                f.write("\n".join(lines[k::shards]) + "\n")
+            files.append(p)
+        with ThreadPoolExecutor(max_workers=shards) as ex:
+            return list(ex.map(lambda p: self.validate_trace(module, cfg, p, what=what, timeout=timeout), files))
 
     # ---------------------------------------------------------------- verdicts
     def save_replay(self, src_or_obj, name):
